@@ -219,6 +219,7 @@ class ConditionLambdaInspection:
 
 _DECORATOR_RE = re.compile(r"^\s*@[a-zA-Z_]")
 _DEF_CLASS_RE = re.compile(r"^\s*(async\s+def|def |class )")
+_COMMENT_ONLY_RE = re.compile(r"^\s*#")
 
 
 class DecoratorInspection:
@@ -287,6 +288,13 @@ def inspect_decorator(
         )
 
     decorator_lines = lines[decorator_lineno:decorator_end_lineno]
+
+    # The comment-only lines are allowed to be indented arbitrarily (*e.g.*, a comment starting at the column 0
+    # between an indented decorator and its function). They would prevent us from dedenting the decorator, so we
+    # blank them out. (We keep the lines as such, since the positions in the text must not change.)
+    decorator_lines = [
+        "\n" if _COMMENT_ONLY_RE.match(line) else line for line in decorator_lines
+    ]
 
     # We need to dedent the decorator and add a dummy decorate so that we can parse its text as valid source code.
     decorator_text = textwrap.dedent(
